@@ -37,6 +37,7 @@ type c08Case struct {
 	Comps []c08comp `json:"comps,omitempty"`
 	D     int64     `json:"d,omitempty"`
 	Pos   int       `json:"pos,omitempty"`
+	Raw   []byte    `json:"raw,omitempty"`
 }
 
 func (c c08Case) spelling() string {
@@ -196,6 +197,10 @@ var c08positions = []c08pos{
 
 func c08eval(c c08Case) []ev.Finding {
 	switch c.Kind {
+	case "raw":
+		if p, st := try(func() { _, _ = influxql.ParseDuration(string(c.Raw)) }); p != nil {
+			return []ev.Finding{{Sig: "panic:ParseDuration", Witness: fmt.Sprintf("%q", string(c.Raw)), Detail: fmt.Sprint(p) + st, Case: c}}
+		}
 	case "parse":
 		sp := c.spelling()
 		ex := c.exact()
@@ -396,6 +401,16 @@ func c08run(r *ev.Run) {
 				}
 			}
 		})
+	}
+	// malformed spellings: ParseDuration must return an error, not panic
+	for _, sp := range []string{"", "1", "h", "-", "-1", "1x", "10\xc2", "1m30\xc2", "10\xb5", "1\xff", "1h\x00", "٣h", "1µ", "1µs", "1us", "01h", "1h-1m", "+1h", "1 h", "1h ", "9223372036854775808ns", "1e3s", "1.5h", "0x10s"} {
+		sp := sp
+		n := r.Eval()
+		r.State(astx.HashString("malformed "+sp), false)
+		r.Sample(n, func() interface{} { return "malformed " + sp })
+		if p, st := try(func() { _, _ = influxql.ParseDuration(sp) }); p != nil {
+			r.Report(ev.Finding{Sig: "panic:ParseDuration", Witness: fmt.Sprintf("%q", sp), Detail: fmt.Sprint(p) + st, Case: c08Case{Kind: "raw", Raw: []byte(sp)}})
+		}
 	}
 	// (b) formatting
 	lim := int64(100000)
